@@ -1,14 +1,19 @@
 /-
 C08 — Parsers cut headers at the field boundaries their RFCs define.
 
-Part proved here: the FIXED layouts. The tables `Schc.Gen.*Layout` are extracted from the parsers' source (AST)
-by the translator on every run; each must equal the table written from the RFC (`Schc.Spec.Layouts`), and the
-model parsers are interpreters of exactly these tables. Variable parts (CoAP options, SCTP chunk walks,
-next-protocol chaining) are tied to the RFC encoders by the `parse` correspondence stream (structured
-generators for every delta / length class and every chunk type) — theorems for them are C07 (tiling), C14
-(totality) and, for the option arithmetic, C19.
+Proved here:
+* the FIXED layouts. The tables `Schc.Gen.*Layout` are extracted from the parsers' source (AST) by the translator
+  on every run; each must equal the table written from the RFC (`Schc.Spec.Layouts`), and the model parsers are
+  interpreters of exactly these tables;
+* the CoAP option walk against RFC 7252 §3.1 written as an encoder (`Schc.Spec.wireOption`): for ANY list of
+  options (every delta / length class, empty values, any count) the parser returns exactly the RFC's field list in
+  wire order, with occurrence positions, and the right header length (`C08_coap_message`, `C08_coap_positions`).
+SCTP chunk walks and next-protocol chaining beyond the tables are tied to RFC 9260 encoders by the `parse`
+correspondence stream (structured generators for every chunk type) — theorems about them are C07 (tiling) and C14
+(totality).
 -/
 import Schc.Proofs.Fixed
+import Schc.Proofs.CoapWalk
 
 namespace Schc
 
@@ -57,5 +62,41 @@ theorem C08_udp_fields (fuel : Nat) (b : ABuf) (hl : 64 ≤ b.length) :
   have h1 : ¬ b.length < Gen.udpMinLength := by simp [Gen.udpMinLength]; omega
   simp only [h1, if_false, bind, Except.bind, pure, Except.pure, Bool.false_eq_true]
   rw [C08_udp_layout.1]; rfl
+
+/-- CoAP, the variable part: a whole RFC 7252 message (4-byte header whose TKL nibble announces the token, token,
+    any options encoded as §3.1 prescribes, then nothing or 0xFF + payload) parses to the fixed fields, the token
+    (if any), every option's delta / length / extended delta / extended length / value fields in wire order, and the
+    payload marker; the reported header length stops right after the marker -/
+theorem C08_coap_message (hdr token : Bits) (os : List Spec.CoapOption) (tail : Bits) (hh : hdr.length = 32)
+    (htk : Bits.toNat ((hdr.drop 4).take 4) * 8 = token.length) (hwf : ∀ o ∈ os, Spec.WfOption o)
+    (htail : tail = [] ∨ ∃ p, tail = List.replicate 8 true ++ p) (fuel : Nat) (hf : os.length < fuel) :
+    let b : ABuf := ⟨hdr ++ (token ++ (Spec.wireOptions os ++ tail)), .left⟩
+    ∃ h, coapParse .syntactic fuel b = .ok h ∧
+      h.length = 32 + token.length + (Spec.wireOptions os).length + (if tail = [] then 0 else 8) ∧
+      pairs h.fields = pairs (parseFixed (Spec.layoutFrom 0 Spec.rfc7252Fixed) b) ++ (if token = [] then [] else [(Gen.CoAPF.TOKEN, ⟨token, .left⟩)])
+        ++ os.flatMap optPairs ++ (if tail = [] then [] else [(Gen.CoAPF.PAYLOAD_MARKER, ABuf.ofNat 8 0xff)]) := by
+  have := coapParse_encoded hdr token os tail hh htk hwf htail fuel hf
+  rw [C08_coap_fixed_layout.1] at this
+  exact this
+
+/-- one option in isolation: the slices the parser cuts from an RFC-encoded option are the RFC's fields -/
+theorem C08_coap_option (o : Spec.CoapOption) (hw : Spec.WfOption o) (rest : Bits) :
+    synPairs (optionHeader ⟨Spec.wireOption o ++ rest, .left⟩) = optPairs o ∧
+    (optionHeader ⟨Spec.wireOption o ++ rest, .left⟩).off = (Spec.wireOption o).length :=
+  ⟨synPairs_of_encoded o hw rest, (header_of_encoded o hw rest).2.2.2.2.2.2.2.2⟩
+
+/-- occurrence positions: in whatever the syntactic option parser returns, the k-th field with a given id has
+    position k (the payload marker, if present, has position 0) -/
+theorem C08_coap_positions (ob : ABuf) (fuel : Nat) (fs : List Field) (c : Nat) (h : parseOptions ob .syntactic fuel = .ok (fs, c)) :
+    ∃ opts, opts = numberFrom [] (pairs opts) ∧ (fs = opts ∨ fs = opts ++ [⟨Gen.CoAPF.PAYLOAD_MARKER, ABuf.ofNat 8 0xff, 0⟩]) :=
+  parseOptions_numbered ob fuel fs c h
+
+/-- non-vacuity: delta 11 / 2-byte value, delta 13 (boundary, 8-bit extension holding 0) / empty value,
+    delta 269 (boundary, 16-bit extension holding 0) / 13-byte value (8-bit length extension holding 0) -/
+example :
+    let os : List Spec.CoapOption := [⟨11, Bits.ofNat 16 0x6162⟩, ⟨13, []⟩, ⟨269, Bits.ofNat 104 7⟩]
+    (∀ o ∈ os, Spec.WfOption o) ∧
+    Spec.wireOptions os = Bits.ofNat 16 0xb261 ++ Bits.ofNat 8 0x62 ++ Bits.ofNat 16 0xd000 ++ Bits.ofNat 32 0xed000000 ++ Bits.ofNat 104 7 := by
+  refine ⟨by decide +kernel, by decide +kernel⟩
 
 end Schc
